@@ -39,7 +39,8 @@ ASSUMPTIONS = [
 ]
 BUDGET = {"quick": 2500, "thorough": 20000}
 REQUIRED_CLASSES = {"concurrent-first-end-not-first-start": 100, "composite": 500, "multi-client": 500, "failing-sub-request": 200, "empty-nested-context": 100,
-                    "failing-sub-request-in-concurrent-streams": 40, "previous-request-still-on-the-wire": 10}
+                    "failing-sub-request-in-concurrent-streams": 40, "previous-request-still-on-the-wire": 10,
+                    "nested-context-under-raw-response-context": 100}
 TOL = 1e-9
 
 DELAYS = [0, 0, 1 / 1024, 1 / 64, 1 / 8, 0.5]
@@ -63,6 +64,7 @@ def _tree(draw, depth):
         return {"mode": "leaf", "wires": [] if empty else draw(_wires()), "post": draw(st.sampled_from(DELAYS)), "children": [], "fails": fails}
     n = draw(st.integers(1, 4))
     return {
+        "raw": draw(st.integers(0, 3)) == 0,
         "mode": draw(st.sampled_from(["seq", "par", "par"])),
         "wires": draw(_wires(0, 2)),
         "post": draw(st.sampled_from(DELAYS)),
@@ -135,6 +137,8 @@ def strategy(tier, known):
 # ------------------------------------------------------------------------------------------------ kind "tree"
 async def _run_node(es, node, path, out, wires_out):
     with es.new_request_context() as ctx:
+        if node.get("raw"):
+            es.return_raw_response()  # the runner asks for raw responses in this context (the flag lives next to the timings)
         for gap, service in node["wires"]:
             if gap:
                 await asyncio.sleep(gap)
@@ -228,8 +232,14 @@ def _check_tree(case, obs):
         obs.cls("concurrent-first-end-not-first-start")
     if any(_has_failing(t) for t in trees):
         obs.cls("failing-sub-request")
+    if any(_has_raw_parent(t) for t in case["clients"]):
+        obs.cls("nested-context-under-raw-response-context")
     obs.cls("tree")
     obs.mark_nontrivial(interesting)
+
+
+def _has_raw_parent(node):
+    return (bool(node.get("raw")) and bool(node["children"])) or any(_has_raw_parent(ch) for ch in node["children"])
 
 
 def _has_failing(node):
